@@ -200,8 +200,8 @@ func runShard(ops []Op, wo WorkerOpts) ([]Obs, error) {
 			// (once three hangs have been confirmed in this run the machine is not the cause: no more repeats)
 			wo2 := wo
 			wo2.Stall = 4 * wo.Stall
-			if atomic.LoadInt32(&confirmedHangs) >= 3 {
-				ob.Hang = true
+			if atomic.LoadInt32(&confirmedHangs) >= 3 || culprit.Kind == "concurrent" {
+				ob.Hang = true // (a batch of concurrent calls that blocks once has blocked: schedules do not repeat)
 			} else if got2, died2, _, _, err2 := runWorkerOnce([]Op{culprit}, wo2); err2 == nil && !died2 && len(got2) == 1 {
 				ob = got2[0]
 			} else {
